@@ -101,6 +101,10 @@ fn case_dt(day: i64, nod: u64, off: i32, acc: &mut Acc) {
             return (disp, Ok((None, 0)), Ok(String::new()), Ok((None, 0)));
         }
         let from = DateTime::from_str(&want_rfc).map(|v| (dt_instant(&v), off_secs(v.get_offset()))).map_err(|e| e.to_string());
+        // the same text with the nanoseconds written out: FromStr reads RFC 3339, fraction included
+        let with_fraction = format!("{}.{:09}{}", &want_rfc[..19], inst.rem_euclid(ins::NS), &want_rfc[19..]);
+        let from_fraction = DateTime::from_str(&with_fraction).map(|v| (dt_instant(&v), off_secs(v.get_offset()))).map_err(|e| e.to_string());
+        let from = if from_fraction != Ok((Some(inst), off)) { Err(format!("with the fraction written out: from_str({:?}) = {:?}, expected instant {} offset {}", with_fraction, from_fraction, inst, off)) } else { from };
         let ser = serde_json::to_string(&x).map_err(|e| e.to_string());
         let de = ser.clone().and_then(|s| serde_json::from_str::<DateTime>(&s).map(|v| (dt_instant(&v), off_secs(v.get_offset()))).map_err(|e| e.to_string()));
         (disp, from, ser, de)
